@@ -456,7 +456,7 @@ where
         let mut current = self.get_root();
 
         loop {
-            let left_child = self.get_page(current)?.cell(0).left_child();
+            let left_child = self.get_page(current)?.child(0);
 
             let is_leaf = self.get_page(current)?.is_leaf();
             self.accessor_mut()?.release(current);
